@@ -2,9 +2,11 @@ package server
 
 import (
 	"context"
+	"errors"
 	"net"
 	"net/netip"
 	"sync"
+	"syscall"
 	"time"
 
 	"github.com/osrg/gobgp/v4/pkg/packet/bgp"
@@ -181,4 +183,166 @@ func VH_c07_active_disable() {
 	vAssert(n == 1 && f.state.Load() == bgp.BGP_FSM_IDLE, "a disabled peer left Idle on its own")
 	cancel()
 	vReach("disabled")
+}
+
+// the accept path sets socket options on the connection (netutils: conn.(syscall.Conn)); the
+// scripted transport has no socket and says so (the options are outside every claim)
+func (c *vConn) SyscallConn() (syscall.RawConn, error) {
+	return nil, errors.New("scripted transport: no socket")
+}
+
+// C07 (whole session through the real loop): a passive peer's fsmHandler.loop runs from Idle on the
+// virtual clock: idle hold timer -> Active, an inbound connection -> OpenSent (our OPEN goes out),
+// the peer's OPEN -> OpenConfirm (KEEPALIVE goes out), its KEEPALIVE -> Established, then one of the
+// endings. The sequence of reported transitions is exactly the RFC 4271 one for the script, every
+// consecutive pair is a legal transition, Established is only reported after OPEN and KEEPALIVE were
+// received, and the NOTIFICATION on the wire is the prescribed one.
+const (
+	c07lSilence      = iota // Established, then silence: hold timer (3 s) expires
+	c07lNotification        // Established, then the peer sends Cease
+	c07lDisable             // Established, then the operator disables the neighbour
+	c07lBadOpen             // the peer's OPEN carries the wrong AS
+	c07lUpdateEarly         // the peer sends an UPDATE instead of the KEEPALIVE that confirms the OPEN
+	c07lN
+)
+
+func c07legal(from, to bgp.FSMState) bool {
+	switch from {
+	case bgp.BGP_FSM_IDLE:
+		return to == bgp.BGP_FSM_ACTIVE
+	case bgp.BGP_FSM_ACTIVE:
+		return to == bgp.BGP_FSM_OPENSENT || to == bgp.BGP_FSM_OPENCONFIRM || to == bgp.BGP_FSM_IDLE
+	case bgp.BGP_FSM_OPENSENT:
+		return to == bgp.BGP_FSM_OPENCONFIRM || to == bgp.BGP_FSM_ACTIVE || to == bgp.BGP_FSM_IDLE
+	case bgp.BGP_FSM_OPENCONFIRM:
+		return to == bgp.BGP_FSM_ESTABLISHED || to == bgp.BGP_FSM_IDLE
+	case bgp.BGP_FSM_ESTABLISHED:
+		return to == bgp.BGP_FSM_IDLE
+	}
+	return false
+}
+
+func VH_c07_lifecycle() {
+	ending := vChoice("ending", c07lN)
+	open, _ := bgp.NewBGPOpenMessage(65001, 3, vAddr4(2, 2, 2, 2), []bgp.OptionParameterInterface{
+		bgp.NewOptionParameterCapability([]bgp.ParameterCapabilityInterface{bgp.NewCapFourOctetASNumber(65001), bgp.NewCapMultiProtocol(bgp.RF_IPv4_UC)})})
+	if ending == c07lBadOpen {
+		open.Body.(*bgp.BGPOpen).MyAS = 65009
+		open.Body.(*bgp.BGPOpen).OptParams = nil
+	}
+	in := c07wire(open)
+	switch ending {
+	case c07lSilence, c07lDisable:
+		in = append(in, c07wire(bgp.NewBGPKeepAliveMessage())...)
+	case c07lNotification:
+		in = append(in, c07wire(bgp.NewBGPKeepAliveMessage())...)
+		in = append(in, c07wire(bgp.NewBGPNotificationMessage(bgp.BGP_ERROR_CEASE, bgp.BGP_ERROR_SUB_PEER_DECONFIGURED, nil))...)
+	case c07lUpdateEarly:
+		in = append(in, c07wire(vUpdate4(vPrefix4(10, 1, 0, 0, 16), false, []uint32{65001}, vAddr4(10, 0, 0, 2)))...)
+	}
+	f, h, conn := c07fsm(bgp.BGP_FSM_IDLE, in, true)
+	f.conn = nil
+	f.outgoingConnMgr = nil
+	c := f.pConf.ReadCopy()
+	c.Transport.Config.PassiveMode = true
+	f.pConf.Update(&c)
+	f.idleHoldTime = 1
+	type tr struct {
+		next   bgp.FSMState
+		reason fsmStateReasonType
+		open   bool // our view at the time of the report
+		ka     bool
+	}
+	var mu sync.Mutex
+	var seen []tr
+	routed := 0
+	h.callback = func(m *fsmMsg) {
+		mu.Lock()
+		defer mu.Unlock()
+		switch m.MsgType {
+		case fsmMsgStateChange:
+			seen = append(seen, tr{next: m.MsgData.(bgp.FSMState), reason: m.StateReason.Type, open: f.recvOpen != nil, ka: conn.consumed()})
+		case fsmMsgBGPMessage:
+			routed++
+		}
+	}
+	f.h = h
+	ctx, cancel := context.WithCancel(context.Background())
+	defer cancel()
+	var wg sync.WaitGroup
+	wg.Add(1)
+	go h.loop(ctx, &wg)
+	snapshot := func() []tr {
+		mu.Lock()
+		defer mu.Unlock()
+		return append([]tr(nil), seen...)
+	}
+	states := func(l []tr) []bgp.FSMState {
+		r := make([]bgp.FSMState, len(l))
+		for i := range l {
+			r[i] = l[i].next
+		}
+		return r
+	}
+	same := func(a []bgp.FSMState, b ...bgp.FSMState) bool {
+		if len(a) != len(b) {
+			return false
+		}
+		for i := range a {
+			if a[i] != b[i] {
+				return false
+			}
+		}
+		return true
+	}
+	<-time.After(1500 * time.Millisecond)
+	l := snapshot()
+	vAssert(same(states(l), bgp.BGP_FSM_ACTIVE) && l[0].reason == fsmIdleTimerExpired, "the idle hold timer (1 s) does not take an enabled peer from Idle to Active, and nowhere else")
+	f.connCh <- conn // the peer connects
+	<-time.After(1 * time.Second)
+	l = snapshot()
+	_, _, _, sentKA, sentOpen := conn.written()
+	vAssert(sentOpen, "no OPEN was sent on the accepted connection")
+	switch ending {
+	case c07lSilence, c07lDisable:
+		vAssert(same(states(l), bgp.BGP_FSM_ACTIVE, bgp.BGP_FSM_OPENSENT, bgp.BGP_FSM_OPENCONFIRM, bgp.BGP_FSM_ESTABLISHED), "OPEN then KEEPALIVE on the accepted connection do not take the session Active -> OpenSent -> OpenConfirm -> Established")
+		vAssert(sentKA && l[3].open && l[3].ka, "Established was reported before the peer's OPEN and KEEPALIVE were received, or without our KEEPALIVE")
+		vAssert(f.state.Load() == bgp.BGP_FSM_ESTABLISHED, "the reported session state is not Established")
+	case c07lNotification:
+		vAssert(same(states(l), bgp.BGP_FSM_ACTIVE, bgp.BGP_FSM_OPENSENT, bgp.BGP_FSM_OPENCONFIRM, bgp.BGP_FSM_ESTABLISHED, bgp.BGP_FSM_IDLE) && l[4].reason == fsmNotificationRecv, "a NOTIFICATION right after the session came up does not give ... -> Established -> Idle (notification received)")
+	case c07lBadOpen:
+		vAssert(same(states(l), bgp.BGP_FSM_ACTIVE, bgp.BGP_FSM_OPENSENT, bgp.BGP_FSM_IDLE), "an OPEN with the wrong AS does not give Active -> OpenSent -> Idle")
+		code, sub, notif, _, _ := conn.written()
+		vAssert(notif && code == bgp.BGP_ERROR_OPEN_MESSAGE_ERROR && sub == bgp.BGP_ERROR_SUB_BAD_PEER_AS && conn.closed, "an OPEN with the wrong AS is not refused with OPEN Message Error / Bad Peer AS and the connection closed")
+	case c07lUpdateEarly:
+		vAssert(same(states(l), bgp.BGP_FSM_ACTIVE, bgp.BGP_FSM_OPENSENT, bgp.BGP_FSM_OPENCONFIRM, bgp.BGP_FSM_IDLE), "an UPDATE in OpenConfirm does not give Active -> OpenSent -> OpenConfirm -> Idle")
+		code, sub, notif, _, _ := conn.written()
+		vAssert(notif && code == bgp.BGP_ERROR_FSM_ERROR && sub == bgp.BGP_ERROR_SUB_RECEIVE_UNEXPECTED_MESSAGE_IN_OPENCONFIRM_STATE && conn.closed, "an UPDATE in OpenConfirm is not refused with FSM Error / OpenConfirm (RFC 6608)")
+	}
+	switch ending {
+	case c07lSilence:
+		<-time.After(3 * time.Second) // 5.5 s: the hold timer (3 s from about 1.5 s) has run out
+		l = snapshot()
+		vAssert(len(l) == 5 && l[4].next == bgp.BGP_FSM_IDLE && l[4].reason == fsmHoldTimerExpired, "silence for the negotiated hold time (3 s) does not end the session with Idle (hold timer expired)")
+		code, sub, notif, _, _ := conn.written()
+		vAssert(notif && code == bgp.BGP_ERROR_HOLD_TIMER_EXPIRED && sub == 0 && conn.closed, "hold timer expiry is not announced with Hold Timer Expired and the connection closed")
+	case c07lDisable:
+		f.adminStateCh <- adminStateOperation{State: adminStateDown}
+		vSettle()
+		l = snapshot()
+		vAssert(len(l) == 5 && l[4].next == bgp.BGP_FSM_IDLE && l[4].reason == fsmAdminDown, "disabling an Established peer does not end the session with Idle (administrative down)")
+		code, sub, notif, _, _ := conn.written()
+		vAssert(notif && code == bgp.BGP_ERROR_CEASE && sub == bgp.BGP_ERROR_SUB_ADMINISTRATIVE_SHUTDOWN && conn.closed, "an administrative disable is not announced with Cease / Administrative Shutdown and the connection closed")
+		<-time.After(8 * time.Second)
+		l = snapshot()
+		vAssert(len(l) == 5 && f.state.Load() == bgp.BGP_FSM_IDLE && f.adminState.Load() == adminStateDown, "a disabled peer left Idle on its own")
+	}
+	l = snapshot()
+	prev := bgp.BGP_FSM_IDLE
+	for _, t := range l {
+		vAssert(c07legal(prev, t.next), "the session made a transition RFC 4271 does not have")
+		prev = t.next
+	}
+	vAssert(routed == 0, "a routing message reached the server although none was sent in Established")
+	vReach([]string{"hold_expired", "notification", "disabled", "bad_open", "update_in_openconfirm"}[ending])
 }
